@@ -449,6 +449,84 @@ theorem modified_canon (rq : ReqFacts) (st : Nat) (msg err : Bytes)
   · exact (applyRules_inv hr hv hc hn).1
 
 
+/-! ## §1d the relayed CONNECT rejection -/
+
+/-- the response modifiers keep the keys of a relayed header map canonical -/
+theorem modified_relay_canon (rq : ReqFacts) (st : Nat) (up : HMap) (body : Bytes)
+    (hr : NoRename rq.rules) (hv : ∀ r ∈ rq.rules, ValidRule r) (hc : CanonKeys up) (hn : NodupKeys up) :
+    CanonKeys (modifyResponse rq (relayResponse rq st up body)).header := by
+  show CanonKeys (removeHopByHop _)
+  refine CanonKeys.sublist (removeHopByHop_sublist _) ?_
+  change CanonKeys (if rq.isConnect = true then up else applyRules rq.rules up)
+  split
+  · exact hc
+  · exact (applyRules_inv hr hv hc hn).1
+
+/-- every value stored under a key whose lower-case form is `x` is among `vals g x` -/
+theorem mem_vals_of_mem {g : HMap} {k : Bytes} {vs : List Bytes} {x v : Bytes} (he : (k, vs) ∈ g)
+    (hk : (lower k == x) = true) (hv : v ∈ vs) : v ∈ vals g x := by
+  induction g with
+  | nil => simp at he
+  | cons e g ih =>
+    rw [vals_cons]
+    rcases List.mem_cons.1 he with h | h
+    · subst h
+      simp only [hk, if_true]
+      exact List.mem_append_left _ hv
+    · exact List.mem_append_right _ (ih h)
+
+/-- `h[k] = xs ++ [v]`: `v` is among the values of `k` afterwards -/
+theorem mem_vals_put (g : HMap) (k : Bytes) (xs : List Bytes) (v : Bytes) :
+    v ∈ vals (HMap.put g k (xs ++ [v])) (lower k) := by
+  have hk : (lower k == lower k) = true := by simp
+  unfold HMap.put
+  split
+  · rename_i hany
+    obtain ⟨e, he, hek⟩ := List.any_eq_true.1 hany
+    refine mem_vals_of_mem (k := k) (vs := xs ++ [v]) ?_ hk (by simp)
+    exact List.mem_map.2 ⟨e, he, by simp [hek]⟩
+  · exact mem_vals_of_mem (k := k) (vs := xs ++ [v]) (by simp) hk (by simp)
+
+/-- when `writeResponse` closes, `Connection: close` is on the wire -/
+theorem close_on_wire (closing : Bool) (r : GoResp) (h : (closing || r.close) = true) :
+    bs "close" ∈ (writeResponse closing r).values connName := by
+  have k1 : canonicalKey (bs "Connection") = connName := by with_unfolding_all rfl
+  have h1 : (bs "content-length" == lower connName) = false := by with_unfolding_all rfl
+  have h3 : ∀ k ∈ [bs "Content-Length", bs "Transfer-Encoding", bs "Trailer"], (lower k == lower connName) = false := by
+    with_unfolding_all decide
+  unfold writeResponse WireResp.values
+  simp only [List.filter_cons, h1, Bool.false_eq_true, if_false, h, if_true]
+  show bs "close" ∈ vals (List.filter _ _) (lower connName)
+  rw [vals_filter]
+  · simp only [goAdd, k1]
+    exact mem_vals_put _ _ _ _
+  · intro e _ he
+    have hc : [bs "Content-Length", bs "Transfer-Encoding", bs "Trailer"].contains e.1 = true := by
+      revert he
+      generalize [bs "Content-Length", bs "Transfer-Encoding", bs "Trailer"].contains e.1 = b
+      cases b <;> simp
+    exact h3 e.1 (List.contains_iff_mem.1 hc)
+
+/-- the values of a field the response rules and hop-by-hop removal leave alone are, after the
+    response modifiers, those of the upstream proxy's reply (as a multiset) -/
+theorem modified_relay_vals (rq : ReqFacts) (st : Nat) (up : HMap) (body : Bytes) (x : Bytes)
+    (hr : NoRename rq.rules) (hv : ∀ r ∈ rq.rules, ValidRule r) (hc : CanonKeys up) (hn : NodupKeys up)
+    (hl : ∀ r ∈ rq.rules, leaves x r = true ∧ leaves (lower connName) r = true)
+    (hconn : vals up (lower connName) = [])
+    (hx : ∀ k ∈ hopByHopNames.map canonicalKey, (lower k == x) = false) :
+    (vals (modifyResponse rq (relayResponse rq st up body)).header x).Perm (vals up x) := by
+  show (vals (removeHopByHop (if rq.isConnect = true then up else applyRules rq.rules up)) x).Perm _
+  by_cases hco : rq.isConnect = true
+  · simp only [hco, if_true]
+    rw [vals_removeHopByHop _ _ hconn hx]
+  · have hco' : rq.isConnect = false := by simpa using hco
+    simp only [hco', Bool.false_eq_true, if_false]
+    have p1 := vals_applyRules x hr hv hc hn (fun r h => (hl r h).1)
+    have p2 := vals_applyRules (lower connName) hr hv hc hn (fun r h => (hl r h).2)
+    rw [hconn] at p2
+    rw [vals_removeHopByHop _ _ (List.perm_nil.1 p2) hx]
+    exact p1
+
 /-! ## §1c the shapes `clientStream` takes -/
 
 theorem errorObs_generated (ex : Exchange) (k : ErrKind) (h : ∀ s, k ≠ .connectRejected s) :
@@ -456,7 +534,7 @@ theorem errorObs_generated (ex : Exchange) (k : ErrKind) (h : ∀ s, k ≠ .conn
   cases k <;> first | rfl | exact absurd rfl (h _)
 
 theorem errorObs_relay (ex : Exchange) (s : Nat) :
-    errorObs ex (.connectRejected s) = .relayedRejection ex.id s false true := rfl
+    errorObs ex (.connectRejected s) = .relayedRejection ex.id s true (!ex.reqClose) := rfl
 
 theorem cutErr_upstream (k : Nat) (r sf : Bool) :
     upstreamKind (cutErr k r sf) = true ∧ ∀ s, cutErr k r sf ≠ .connectRejected s := by
